@@ -117,6 +117,13 @@ func mkProg(ctx map[string]interface{}, body ...gen.Node) *Program {
 	if ctx == nil {
 		ctx = map[string]interface{}{}
 	}
+	// the context has variables named like the loops' own variables: inside a loop body, at any depth, the
+	// loop's variable is the one that counts
+	for _, n := range []string{"o", "v", "k", "i", "w", "u"} {
+		if _, ok := ctx[n]; !ok {
+			ctx[n] = "ctx-" + n
+		}
+	}
 	return &Program{Templates: map[string]*gen.Template{"main": tpl("main", body...)}, Main: "main", Ctx: ctx}
 }
 
@@ -174,8 +181,8 @@ func (p *c06) Init(tier string, seed int64) {
 						f.Else = []gen.Node{tx("EMPTY")}
 					case 3:
 						// nested: outer loop over 2 elements, inner the sequence, loop.parent checked
-						f.Body = loopProbe("", "v", true)
-						outer := &gen.NFor{Val: "o", Seq: &gen.EArr{Els: []gen.Expr{str("x"), str("y")}}, Body: []gen.Node{tx("["), pr(nm("o")), f, tx("]")}}
+						f.Body = append([]gen.Node{pr(nm("o")), tx("/"), pr(nm("ok")), tx(":")}, loopProbe("", "v", true)...)
+						outer := &gen.NFor{Key: "ok", Val: "o", Seq: &gen.EArr{Els: []gen.Expr{str("x"), str("y")}}, Body: []gen.Node{tx("["), pr(nm("o")), f, tx("]"), pr(nm("v"))}}
 						return mkProg(ctx, outer), fmt.Sprintf("for/%s/n=%d/nested", sk.name, n)
 					}
 					return mkProg(ctx, tx("<"), f, tx(">")), fmt.Sprintf("for/%s/n=%d/form=%d", sk.name, n, form)
@@ -479,7 +486,7 @@ func (p *c06) Run(i int) (res fw.Result) {
 }
 
 func (p *c06) Rule() string {
-	return "enumerated (exhaustive within the bound): every if-chain shape with <=3 elseif x optional else x every truth assignment; truthiness of each scalar class; every sequence kind (array literal, range, []int, []string, []Value, *[]int, [3]int, single-entry map, hash literal, nil, null, empty map) x length 0..8 x {value only, key+value, with else, nested in an outer loop with loop.parent} printing key, value and all seven loop fields at every position; inline-if loops for every element mask of length 1..5 and comparison conditions; non-iterables (numbers, strings, bools, structs) must be an error. Random: nestings of if/elseif/else and for (depth<=4) with boolean conditions from the expression region and loop fields printed at every depth. Oracle: reference model output and error-or-not. Loop fields are not printed inside inline-if bodies and the else-branch of a fully filtered non-empty loop is not exercised (stick and Twig differ there; the statement only promises which elements are rendered). Non-trivial: enumerated cases are distinct by construction; random ones need a loop nested in or containing another construct."
+	return "enumerated (exhaustive within the bound): every if-chain shape with <=3 elseif x optional else x every truth assignment; truthiness of each scalar class; every sequence kind (array literal, range, []int, []string, []Value, *[]int, [3]int, single-entry map, hash literal, nil, null, empty map) x length 0..8 x {value only, key+value, with else, nested in an outer loop with loop.parent, the outer loop's key and value read inside the inner loop} printing key, value and all seven loop fields at every position, with context variables named like every loop variable; inline-if loops for every element mask of length 1..5 and comparison conditions; non-iterables (numbers, strings, bools, structs) must be an error. Random: nestings of if/elseif/else and for (depth<=4) with boolean conditions from the expression region and loop fields printed at every depth. Oracle: reference model output and error-or-not. Loop fields are not printed inside inline-if bodies and the else-branch of a fully filtered non-empty loop is not exercised (stick and Twig differ there; the statement only promises which elements are rendered). Non-trivial: enumerated cases are distinct by construction; random ones need a loop nested in or containing another construct."
 }
 
 func (p *c06) Assumptions() []string {
